@@ -35,8 +35,43 @@ var vocab = []string{
 	"#c\n", "# unterminated", "//c\n", "/*c*/", "/* unterminated", "/*\n*/", "\x00", "\xff", "\xc3", "é", "@", "$", "~", "\\",
 }
 
+// runes that may follow a backslash (or stand anywhere) in a quoted string: every ASCII code with
+// equal weight, and the boundaries of the UTF-8 encoding lengths
+func genStringRune(t *rapid.T) rune {
+	switch rapid.IntRange(0, 9).Draw(t, "runeclass") {
+	case 0, 1, 2, 3, 4, 5:
+		return rune(rapid.IntRange(0, 127).Draw(t, "ascii"))
+	case 6, 7:
+		return rapid.SampledFrom([]rune{0x80, 0xFF, 0x100, 0x7FF, 0x800, 0xFFFD, 0xFFFF, 0x10000, 0x10FFFF, 0xD7FF, 0xE000}).Draw(t, "edge")
+	default:
+		return rune(rapid.IntRange(0, 0x10FFFF).Draw(t, "any"))
+	}
+}
+
 func genInput(t *rapid.T) Input {
-	switch rapid.IntRange(0, 9).Draw(t, "kind") {
+	switch rapid.IntRange(0, 10).Draw(t, "kind") {
+	case 10:
+		// one string literal: quote, units (plain rune | backslash + rune), closing quote or not
+		q := rapid.SampledFrom([]string{"\"", "'", "`"}).Draw(t, "quote")
+		var b strings.Builder
+		if rapid.Bool().Draw(t, "assign") {
+			b.WriteString("x = ")
+		}
+		b.WriteString(q)
+		for n := rapid.IntRange(0, 6).Draw(t, "units"); n > 0; n-- {
+			if rapid.IntRange(0, 2).Draw(t, "esc") > 0 {
+				b.WriteByte('\\')
+			}
+			b.WriteRune(genStringRune(t))
+		}
+		switch rapid.IntRange(0, 3).Draw(t, "end") {
+		case 0:
+		case 1:
+			b.WriteString("\\")
+		default:
+			b.WriteString(q)
+		}
+		return Input{"string-literal", b.String()}
 	case 0:
 		return Input{"bytes", string(rapid.SliceOfN(rapid.Byte(), 0, 40).Draw(t, "bytes"))}
 	case 1, 2, 3:
@@ -205,11 +240,27 @@ func oracleTotal(c Input, o *h.Obs) *h.Fail {
 
 type Batch struct {
 	Srcs []string `json:"srcs"`
+	// Rounds > 1: large sources; most goroutines parse Srcs[0] again and again while a few
+	// parse the other texts (results of earlier calls must never show up in later ones)
+	Rounds int `json:"rounds,omitempty"`
 }
 
 func genBatch(t *rapid.T) Batch {
 	n := rapid.IntRange(2, 4).Draw(t, "n")
 	b := Batch{}
+	if rapid.IntRange(0, 11).Draw(t, "large") == 0 {
+		b.Rounds = rapid.IntRange(5, 15).Draw(t, "rounds")
+		for i := 0; i < n; i++ {
+			unit := genValid(t, "unit") + "\n"
+			if strings.TrimSpace(unit) == "" {
+				unit = "u = 1\n"
+			}
+			size := rapid.SampledFrom([]int{4096, 4200, 6000}).Draw(t, "size")
+			src := strings.Repeat(unit, size/len(unit)+1) + fmt.Sprintf("mark = %d\n", i)
+			b.Srcs = append(b.Srcs, src)
+		}
+		return b
+	}
 	for i := 0; i < n; i++ {
 		b.Srcs = append(b.Srcs, genInput(t).Src)
 	}
@@ -228,10 +279,19 @@ func oracleConcurrent(c Batch, o *h.Obs) *h.Fail {
 		}
 		solo[i] = errString(r.err)
 		if r.err == nil {
-			solo[i] = dump.Dump(r.stmt, dump.Opts{Positions: true})
+			if c.Rounds > 1 {
+				solo[i] = tailDump(r.stmt)
+			} else {
+				solo[i] = dump.Dump(r.stmt, dump.Opts{Positions: true})
+			}
 		}
 	}
-	const G = 8
+	G := 8
+	rounds := 1
+	if c.Rounds > 1 {
+		G, rounds = 16, c.Rounds
+		o.Class("large_sources_parsed_repeatedly")
+	}
 	got := make([][]string, G)
 	var wg sync.WaitGroup
 	for g := 0; g < G; g++ {
@@ -243,12 +303,28 @@ func oracleConcurrent(c Batch, o *h.Obs) *h.Fail {
 					got[g] = []string{fmt.Sprintf("PANIC %v", p)}
 				}
 			}()
-			for k := 0; k < len(c.Srcs); k++ {
+			for k := 0; k < len(c.Srcs)*rounds; k++ {
 				i := (k + g) % len(c.Srcs)
+				if rounds > 1 {
+					// three quarters of the goroutines keep to text 0, the others cycle over the rest
+					i = 0
+					if g%4 == 3 && len(c.Srcs) > 1 {
+						i = 1 + (k+g)%(len(c.Srcs)-1)
+					}
+				}
 				st, err := parser.ParseSrc(c.Srcs[i])
 				s := errString(err)
 				if err == nil {
-					s = dump.Dump(st, dump.Opts{Positions: true})
+					if rounds > 1 {
+						// the whole dump of a large tree per call would dominate the run: its statement
+						// count and the last statement (the text's own marker) identify the text
+						s = tailDump(st)
+					} else {
+						s = dump.Dump(st, dump.Opts{Positions: true})
+					}
+				}
+				if rounds > 1 && len(got[g]) > 0 && got[g][len(got[g])-1] == fmt.Sprintf("%d\x00%s", i, s) {
+					continue
 				}
 				got[g] = append(got[g], fmt.Sprintf("%d\x00%s", i, s))
 			}
@@ -269,6 +345,15 @@ func oracleConcurrent(c Batch, o *h.Obs) *h.Fail {
 		}
 	}
 	return nil
+}
+
+// tailDump identifies a large tree: number of top-level statements and the dump of the last one.
+func tailDump(st ast.Stmt) string {
+	ss, ok := stmtsOf(st)
+	if !ok || len(ss) == 0 {
+		return dump.Dump(st, dump.Opts{Positions: true})
+	}
+	return fmt.Sprintf("%d statements, last: %s", len(ss), dump.Dump(ss[len(ss)-1], dump.Opts{Positions: true}))
 }
 
 // ---------- compositionality ----------
